@@ -27,5 +27,6 @@ func moreGens() []struct {
 		{"FaultWrap.v", genFaultWrap},         // C16
 		{"PkgVars.v", genPkgVars},             // C14
 		{"EvalShape.v", genEvalShape},         // C02, C13
+		{"LatchShape.v", genLatchShape},       // C01
 	}
 }
